@@ -42,12 +42,12 @@ func paramsFromHeadersAndCookies(endpoint *expr.HTTPEndpointExpr, rand *expr.Exa
 			// define authorization.
 			return nil
 		}
-		required := endpoint.Headers.IsRequiredNoDefault(name)
+		required := endpoint.Headers.IsRequired(name)
 		params = append(params, paramFor(att, elem, "header", required, rand))
 		return nil
 	})
 	expr.WalkMappedAttr(endpoint.Cookies, func(name, elem string, att *expr.AttributeExpr) error { // nolint: errcheck
-		required := endpoint.Cookies.IsRequiredNoDefault(name)
+		required := endpoint.Cookies.IsRequired(name)
 		params = append(params, paramFor(att, elem, "cookie", required, rand))
 		return nil
 	})
